@@ -5,6 +5,7 @@ package c07
 import (
 	"context"
 	"fmt"
+	"reflect"
 	"runtime"
 	"sort"
 	"sync"
@@ -31,6 +32,8 @@ type OverlapCase struct {
 }
 
 type hstate struct {
+	sync    bool
+	seenSet sync.Map // event id -> struct{} once the handler body has finished with it
 	inside  atomic.Int32
 	overlap atomic.Int32
 	pending atomic.Int32
@@ -50,6 +53,7 @@ func subscribeSeq(bus *eventbus.EventBus, h H, st *hstate) {
 		st.mu.Lock()
 		st.seen = append(st.seen, id)
 		st.mu.Unlock()
+		st.seenSet.Store(id, struct{}{})
 		if !st.inside.CompareAndSwap(1, 0) {
 			st.overlap.Add(1)
 		}
@@ -75,10 +79,28 @@ func RunOverlap(c *OverlapCase) *vkit.Outcome {
 		total += n
 	}
 	for round := 0; round < c.Rounds; round++ {
-		bus := eventbus.New()
 		sts := make([]*hstate, len(c.Handlers))
+		var early atomic.Value // first report of a publish/after-hook that ran ahead of a synchronous handler
+		missing := func(id int) int {
+			for i, st := range sts {
+				if st.sync {
+					if _, ok := st.seenSet.Load(id); !ok {
+						return i
+					}
+				}
+			}
+			return -1
+		}
+		// the after-publish hook of a publish runs after all its synchronous handlers returned
+		bus := eventbus.New(eventbus.WithAfterPublish(func(_ reflect.Type, ev any) {
+			if e, ok := ev.(Ev); ok {
+				if hi := missing(e.ID); hi >= 0 {
+					early.CompareAndSwap(nil, fmt.Sprintf("the after-publish hook of event %d ran before synchronous Sequential handler %d had handled that event", e.ID, hi))
+				}
+			}
+		}))
 		for i, h := range c.Handlers {
-			sts[i] = &hstate{}
+			sts[i] = &hstate{sync: !h.Async}
 			subscribeSeq(bus, h, sts[i])
 		}
 		var start, done sync.WaitGroup
@@ -93,6 +115,10 @@ func RunOverlap(c *OverlapCase) *vkit.Outcome {
 				start.Wait()
 				for k := 0; k < n; k++ {
 					eventbus.Publish(bus, Ev{base + k})
+					// a synchronous handler has run by the time Publish returns
+					if hi := missing(base + k); hi >= 0 {
+						early.CompareAndSwap(nil, fmt.Sprintf("Publish of event %d returned before synchronous Sequential handler %d had handled it", base+k, hi))
+					}
 				}
 			}(base, n)
 			base += n
@@ -103,6 +129,10 @@ func RunOverlap(c *OverlapCase) *vkit.Outcome {
 		start.Done()
 		done.Wait()
 		bus.Wait()
+		if msg, _ := early.Load().(string); msg != "" {
+			o.Failf("", "round %d: %s (handlers %+v)", round, msg, c.Handlers)
+			return o
+		}
 		for i, st := range sts {
 			if n := st.overlap.Load(); n > 0 {
 				o.Failf("", "round %d: Sequential handler %d %+v overlapped itself (%d overlapping entries/exits)", round, i, c.Handlers[i], n)
